@@ -236,7 +236,7 @@ fn ser_then_de_var(v: &Value<'_>, disc: u8, l: usize, elem: usize) -> (Option<Va
 }
 
 stubs! {
-//@ props=C33 kind=bounded bound="payload length 0, 1, 2 bytes" timeout=3000 tier=thorough
+//@ props=C33 kind=bounded bound="payload length 0, 1, 2 bytes" timeout=3000 tier=manual
 /// Blob with payloads of length 0..=2 (all byte values): round-trip with the same variant, same length,
 /// same bytes; consumes exactly value_size bytes == bytes written
 #[kani::proof]
@@ -252,7 +252,7 @@ fn c33_blob_roundtrip_len2() {
     }
 }
 
-//@ props=C33 kind=bounded bound="payload length 0, 1, 2 bytes" timeout=3000 tier=thorough
+//@ props=C33 kind=bounded bound="payload length 0, 1, 2 bytes" timeout=3000 tier=manual
 /// Jsonb, same contract as Blob
 #[kani::proof]
 #[kani::unwind(4)]
@@ -267,7 +267,7 @@ fn c33_jsonb_roundtrip_len2() {
     }
 }
 
-//@ props=C33 kind=bounded bound="payload length 0, 1, 2 bytes" timeout=3000 tier=thorough
+//@ props=C33 kind=bounded bound="payload length 0, 1, 2 bytes" timeout=3000 tier=manual
 /// ToastPointer, same contract as Blob
 #[kani::proof]
 #[kani::unwind(4)]
@@ -304,7 +304,7 @@ fn c33_vector_roundtrip_len2() {
     }
 }
 
-//@ props=C33 kind=bounded bound="ASCII text of length 0, 1, 2" tier=thorough
+//@ props=C33 kind=bounded bound="ASCII text of length 0, 1, 2" tier=manual timeout=3000
 /// Text (0..=2 ASCII bytes): round-trips as Text with the same bytes; consumes exactly value_size bytes
 #[kani::proof]
 #[kani::unwind(6)]
